@@ -3,12 +3,21 @@
   each of them writes and which window its result shares with its arguments — AS THE REPAIRED CODE
   WRITES THEM — plus, suffixed `Baseline`, `conj` (vector), `concat` and `subvec` as the code wrote
   them before the repair, and the literal builders (reader `read_list`, `eval_ast`: element-wise
-  `append`, which is what leaves spare capacity behind).
+  `append`, which is what leaves spare capacity behind: `[1 2 3]` has len 3, cap 4).
 
   Every function threads the heap: `op g h args = (h', result)`; `g` is the growth policy of
   `append`.  Case splits and checks follow `Core.body` (the pure model of the same Go function).
-  Answers that carry no slice (errors, and the outcome on argument shapes that are not heap
-  collections) are `HRes.pure r`: the heap is not touched and `r` is the pure model's answer.
+  Modelled at the slice level (`stepOp`): conj concat subvec list vector cons rest vec seq first nth
+  take take-last drop drop-last range assoc dissoc hash-map merge rename-keys get keys vals assoc-in;
+  separately (not in `Core.body`): with-meta, and with the callee as a parameter: apply (its argument
+  vector), map, update, update-in.  Quasiquote with unquote-splicing and macro expansion produce
+  calls of `concat` / `cons` / `vec` — histories of the above.
+  `HRes.pure r` is an answer that carries no slice: every error, every scalar answer, and the answer
+  of a builtin on arguments that are not heap collections (there the heap is not touched and `r` is
+  what the pure model answers; a collection inside such an `r` is a constant outside the heap, see
+  `Valid` in Heap.lean — e.g. the result of `get-in`, which is not modelled at the slice level).
+  A step whose Go code fails half-way (e.g. `assoc` on a vector with a bad index, after `copy_vector`)
+  answers on the heap it started from: what it wrote was its own copy, now garbage.
   Core Lean only.
 -/
 import LispModel.Heap
